@@ -468,6 +468,13 @@ impl Visitor<Diagnostic> for LibraryRenderer {
 
         self.visit_array_specification_kind(&node.spec)?;
 
+        if !node.init.is_empty() {
+            self.write_ws(":=");
+            self.write_ws("[");
+            visit_comma_separated!(self, node.init.iter(), ArrayInitialElementKind);
+            self.write_ws("]");
+        }
+
         Ok(())
     }
 
